@@ -208,6 +208,11 @@ func decodeBatchRecords(batch []byte, topic string, partition int32) ([]Record, 
 	}
 
 	recordsData := batch[recordBatchHeaderLen:]
+	// Every record takes at least one byte: a count beyond that is a crafted
+	// header, not something to size an allocation by.
+	if int64(recordCount) > int64(len(recordsData)) {
+		return nil, fmt.Errorf("record count %d exceeds batch payload of %d bytes", recordCount, len(recordsData))
+	}
 	reader := bytes.NewReader(recordsData)
 	records := make([]Record, 0, recordCount)
 	for i := int32(0); i < recordCount; i++ {
@@ -225,8 +230,8 @@ func decodeRecord(reader *bytes.Reader, baseOffset int64, baseTimestamp int64, t
 	if err != nil {
 		return Record{}, err
 	}
-	if length < 0 {
-		return Record{}, fmt.Errorf("invalid record length")
+	if length < 0 || int64(length) > int64(reader.Len()) {
+		return Record{}, fmt.Errorf("invalid record length %d with %d bytes left", length, reader.Len())
 	}
 
 	recordData := make([]byte, length)
@@ -271,6 +276,9 @@ func decodeRecord(reader *bytes.Reader, baseOffset int64, baseTimestamp int64, t
 	if err != nil {
 		return Record{}, err
 	}
+	if headerCount < 0 || int64(headerCount) > int64(buf.Len()) {
+		return Record{}, fmt.Errorf("invalid header count %d with %d bytes left", headerCount, buf.Len())
+	}
 	headers := make([]Header, 0, headerCount)
 	for i := int32(0); i < headerCount; i++ {
 		headerKeyLen, err := readVarint(buf)
@@ -311,6 +319,9 @@ func parseIndex(data []byte) ([]indexEntry, error) {
 		return nil, fmt.Errorf("invalid index magic")
 	}
 	entryCount := int(binary.BigEndian.Uint32(data[6:10]))
+	if entryCount > (len(data)-16)/12 {
+		return nil, fmt.Errorf("index declares %d entries in %d bytes", entryCount, len(data))
+	}
 	entries := make([]indexEntry, 0, entryCount)
 	offset := 16
 	for i := 0; i < entryCount; i++ {
@@ -359,6 +370,9 @@ func zigZagDecode(value int32) int32 {
 func readNullableBytes(reader *bytes.Reader, length int32) ([]byte, error) {
 	if length < 0 {
 		return nil, nil
+	}
+	if int64(length) > int64(reader.Len()) {
+		return nil, fmt.Errorf("field length %d exceeds the %d bytes left", length, reader.Len())
 	}
 	data := make([]byte, length)
 	if _, err := io.ReadFull(reader, data); err != nil {
